@@ -66,7 +66,7 @@ def run(tier: str, keep: bool = False) -> int:
                 exc = type(e).__name__
             recs.append(dict(id=len(recs) + 1, k="route", kind=kind, acked=acked, h=h, got=got, exc=exc))
         # 3. acknowledge_inactive_eof_pdu
-        for cond, status, mode, width, crc in itertools.product(ConditionCode, TransactionStatus, ["ACK", "UNACK"], [1, 2, 8], [False, True]):
+        for cond, status, mode, width, crc in itertools.product([c for c in ConditionCode if 0 <= c.value <= 15], TransactionStatus, ["ACK", "UNACK"], [1, 2, 8], [False, True]):
             h = dict(dir="TR", mode=mode, crc=crc, lf=False, sw=width, sv=1, dw=width, dv=2, qw=2, qv=5)
             a = dict(h=h, t="EOF", cond=cond.name, size=3, chk=[1, 2], floc=dict(set=cond != ConditionCode.NO_ERROR, v=[0, 1]))
             if a["floc"]["set"] is False:
